@@ -266,9 +266,31 @@ func (c *wireChecker) value(ty *codecgen.Ty, fd protoreflect.FieldDescriptor, v 
 			tn = m.Get(m.Descriptor().Fields().ByName("type_name")).String()
 		}
 		t, tc := j.member("!type")
-		_, vc := j.member("value")
+		vn, vc := j.member("value")
 		if len(j.keys) != 2 || tc != 1 || vc != 1 || t.kind != 's' || t.s != tn {
 			c.fail("C08 any framing", "Any values are {!type, value}", path, fmt.Sprint(j.keys))
+			return
+		}
+		// the value member is the payload's J5 JSON: the stored j5_json text of a j5 Any, otherwise the
+		// encoding of the message the proto bytes hold (compared as JSON values)
+		var want []byte
+		fs := m.Descriptor().Fields()
+		if !ty.PB && m.Has(fs.ByName("j5_json")) {
+			want = m.Get(fs.ByName("j5_json")).Bytes()
+		} else if _, payload, err := anyPayloadMsg(m); err == nil {
+			if o := encodeMsg(theCodec, payload); o.Kind == "ok" {
+				want = o.Out
+			}
+		}
+		if want != nil {
+			if wn, err := parseStrict(want); err == nil {
+				var a, b []byte
+				printNode(&a, wn)
+				printNode(&b, vn)
+				if string(a) != string(b) {
+					c.fail("C08 any value is not the payload's J5 JSON", "Any values are {!type, value}", path, fmt.Sprintf("%s vs %s", short(b), short(a)))
+				}
+			}
 		}
 	}
 }
